@@ -555,7 +555,13 @@ func doSearch(t *testing.T) {
 		agg.Runs++
 		agg.ByHarness[h.Name()]++
 		if hashOut != nil {
-			fmt.Fprintf(hashOut, "%d %s %s %d\n", seed, rec.LogHash, rec.Verdict, rec.Stats.Steps)
+			lh := rec.LogHash
+			if th, ok := h.(interface{ Ties(cfg any) bool }); ok && th.Ties(cfg) {
+				// configurations whose event log depends on something outside the simulator's control (same-instant timers
+				// of f1's one-minute schedule switch, a report made from inside a loop over a Go map) are not compared
+				lh = "not-compared"
+			}
+			fmt.Fprintf(hashOut, "%d %s %s %d\n", seed, lh, rec.Verdict, rec.Stats.Steps)
 		}
 		st := rec.Stats
 		agg.Steps += st.Steps
